@@ -12,7 +12,7 @@ from ..world import World
 ID = "C03"
 LEVEL = "exploration"
 ENGINE_B2 = True
-BUDGET = {"quick": {"n": 600, "wall_s": 400}, "thorough": {"n": 30000, "wall_s": 3300}}
+BUDGET = {"quick": {"n": 800, "wall_s": 400}, "thorough": {"n": 30000, "wall_s": 3300}}
 RULE = ("per case: seeded configuration (hash fn, device kind, pools, prefix/suffix sizes, knob overrides, cache, "
         "transform in ~20%) x replication filter drawn from {default, --rf-over k, --rf-under k, --unique} x world of "
         "near-duplicate families spread over 1..3 roots (overlapping / repeated roots in ~25%), hard links; fault "
